@@ -175,9 +175,18 @@ impl Ctx {
 
     /// Number of cases for the current tier (scaled by PCMON_SCALE, at least 1).
     pub fn n(&self, quick: u64, thorough: u64) -> u64 {
+        // per-property volume multipliers (measured so that a quick run takes about a minute on 16 cores)
+        let (mq, mt) = match self.prop.as_str() {
+            "C05" => (3, 2),
+            "C18" => (1, 1),
+            "C19" => (3, 2),
+            "C13" | "C16" => (8, 2),
+            "C15" => (1, 1),
+            _ => (6, 3),
+        };
         let base = match self.tier {
-            Tier::Quick => quick,
-            Tier::Thorough => thorough,
+            Tier::Quick => quick * mq,
+            Tier::Thorough => thorough * mt,
         };
         ((base as f64 * self.scale).ceil() as u64).max(1)
     }
